@@ -24,6 +24,7 @@ import GoBT.Props.C10
 import GoBT.Props.C20Insc
 import GoBT.Props.C04
 import GoBT.Interp.SigDigest
+import GoBT.Props.C14
 namespace GoBT.C20
 open GoBT GoBT.Fee GoBT.Ord GoBT.Sighash
 
@@ -184,6 +185,72 @@ theorem seller_input_accepted_in_completed_listing (H : Interp.Crypto) (flags : 
   exact C04.p2pkh_forkid_signature_accepted H flags c (sig ++ [0xC3]) pk h _ hflags hfork (by rw [hlast]; decide)
     (by simp only [List.length_append, List.length_cons, List.length_nil]; omega) hp hh hkey
     (by rw [hlast]; exact hht) (by rw [hdrop]; exact hse) hpe (by rw [hlast]; exact hdig) hpk (by rw [hdrop]; exact hver)
+
+/-- **An inscribed output is recognised as such.**  The locking script `Tx.Inscribe` builds on the P2PKH template for a
+    20-byte hash — any content type, any payload — is classified `pubkeyhashinscription` by `ScriptType` (and so by the
+    node-JSON rendering). -/
+theorem inscribed_output_is_classified (h ct data lock : Bytes) (hh : h.length = 20)
+    (hl : inscriptionScript (Interp.P2PKH.lockBytes h) ct data = some lock) :
+    Script.scriptType lock = some .inscription := by
+  -- the three pushes succeeded, so the lengths are below 2^32
+  have lim : ∀ (d : Bytes) pre, Script.pushPrefix d.length = some pre → d.length < 2 ^ 32 := by
+    intro d pre hp
+    unfold Script.pushPrefix at hp
+    by_cases a1 : d.length ≤ 75
+    · omega
+    · by_cases a2 : d.length ≤ 0xFF
+      · omega
+      · by_cases a3 : d.length ≤ 0xFFFF
+        · omega
+        · by_cases a4 : d.length ≤ 0xFFFFFFFF
+          · omega
+          · simp [a1, a2, a3, a4] at hp
+  unfold inscriptionScript pushData at hl
+  simp only [bind, Option.bind, pure, List.length_cons, List.length_nil, Nat.zero_add, Nat.reduceAdd] at hl
+  cases ho : Script.pushPrefix 3 with
+  | none => simp [ho] at hl
+  | some po =>
+    cases hc : Script.pushPrefix ct.length with
+    | none => simp [ho, hc] at hl
+    | some pc =>
+      cases hd : Script.pushPrefix data.length with
+      | none => simp [ho, hc, hd] at hl
+      | some pd =>
+        simp only [ho, hc, hd, Option.map_some, Option.some.injEq] at hl
+        obtain ⟨s, hs, hty⟩ := C14.inscription_template_classified h ct data hh (lim ct pc hc) (lim data pd hd)
+        have item : ∀ (d : Bytes) pre, Script.pushPrefix d.length = some pre → (C14.itemTok d).enc = some (pre ++ d) := by
+          intro d pre hp
+          unfold C14.itemTok
+          split
+          · next h0 =>
+            have : d = [] := List.length_eq_zero_iff.mp h0
+            subst this
+            simp only [List.length_nil, Script.pushPrefix, Nat.zero_le, ↓reduceIte, Option.some.injEq] at hp
+            rw [← hp]; rfl
+          · simp [C13.Tok.enc, hp]
+        have hpo : po = [0x03] := by
+          simp only [Script.pushPrefix, show (3 : Nat) ≤ 75 from by decide, ↓reduceIte, Option.some.injEq] at ho
+          exact ho.symm
+        have hph : Script.pushPrefix h.length = some [UInt8.ofNat h.length] := by
+          simp [Script.pushPrefix, hh]
+        have henc := C14.encToks_of_encs
+          [.op Script.opDUP, .op Script.opHASH160, .push h, .op Script.opEQUALVERIFY, .op Script.opCHECKSIG, .op 0x00,
+            .op Script.opIF, .push [0x6f, 0x72, 0x64], .op Script.opTRUE, C14.itemTok ct, .op 0x00, C14.itemTok data,
+            .op Script.opENDIFc]
+          [[Script.opDUP], [Script.opHASH160], [UInt8.ofNat h.length] ++ h, [Script.opEQUALVERIFY], [Script.opCHECKSIG], [0x00],
+            [Script.opIF], [0x03] ++ [0x6f, 0x72, 0x64], [Script.opTRUE], pc ++ ct, [0x00], pd ++ data, [Script.opENDIFc]]
+          (by
+            simp only [List.map_cons, List.map_nil, item ct pc hc, item data pd hd]
+            simp only [C13.Tok.enc, hph, Option.map_some,
+              show Script.pushPrefix ([0x6f, 0x72, 0x64] : Bytes).length = some [0x03] from by simp [Script.pushPrefix]])
+        have : s = lock := by
+          rw [henc] at hs
+          simp only [Option.some.injEq] at hs
+          rw [← hs, ← hl, hpo]
+          simp [Interp.P2PKH.lockBytes, Script.opDUP, Script.opHASH160, Script.opEQUALVERIFY, Script.opCHECKSIG, Script.opIF,
+            Script.opTRUE, Script.opENDIFc, hh]
+        rw [← this]
+        exact hty
 
 /-! ### first-in-first-out routing -/
 
